@@ -104,6 +104,25 @@ Values(t) ==
         IN each \o absent \o reps
   IN <<mn, ty>> \o Flatten([i \in 1..Len(fs) |-> perField(i)])
 
+(* ---- size-targeted values: the body (and with it every enclosing container) on both sides of the length switches ---- *)
+\* growable leaves of a type: paths (sequences of field names) to a text / hex / raw field whose length is announced by a
+\* prefix (or that takes the rest), through optional / mandatory struct fields
+RECURSIVE GrowPaths(_, _)
+GrowPaths(t, depth) ==
+  IF depth = 0 THEN {}
+  ELSE UNION {LET f == Fields(t)[i] IN
+              IF f.kind \in {"text", "hex", "raw"} /\ f.len.s \in {"Lllv", "Tlv", "Empty"} /\ f.card # "vec" THEN {<<f.name>>}
+              ELSE IF f.kind = "struct" /\ f.card # "vec" THEN {<<f.name>> \o p : p \in GrowPaths(f.sub, depth - 1)}
+              ELSE {} : i \in 1..Len(Fields(t))}
+\* value v of type t with the leaf at path p set to n patterned bytes (absent structs on the way become typical ones)
+RECURSIVE SetLeaf(_, _, _, _)
+SetLeaf(t, v, p, n) ==
+  LET f == FieldByName(t, p[1]) IN
+  IF Len(p) = 1 THEN [v EXCEPT ![p[1]] = Wrap(f, Ascii(n, 11))]
+  ELSE LET inner == IF f.card = "req" THEN v[p[1]] ELSE (IF v[p[1]] = <<>> THEN TypVal(f.sub) ELSE v[p[1]][1]) IN
+       [v EXCEPT ![p[1]] = Wrap(f, SetLeaf(f.sub, inner, Tail(p), n))]
+SwitchLens == {126, 127, 128, 129, 253, 254, 255, 256, 257}
+
 Types == SetToSeq(TypeNames)
 \* SubSeq forces TLC to materialise the table once instead of re-evaluating an entry per state
 AllValuesF == [i \in 1..Len(Types) |-> Values(Types[i])]
